@@ -86,7 +86,25 @@ def finish(mod, pid: str, rec: Recorder, shrink: bool = True):
             return sig in r.failures
 
         try:
-            small = shrink_case(slot["case"], fields, still, budget_s=15.0)
+            small = slot["case"]
+            cands = getattr(mod, "candidates", None)
+            if cands is not None:
+                # structured minimisation: greedy descent over property-specific smaller candidates
+                deadline = time.monotonic() + 20.0
+                progress = True
+                while progress and time.monotonic() < deadline:
+                    progress = False
+                    for c in cands(small):
+                        if time.monotonic() > deadline:
+                            break
+                        try:
+                            ok = still(c)
+                        except Exception:
+                            ok = False
+                        if ok:
+                            small, progress = c, True
+                            break
+            small = shrink_case(small, fields, still, budget_s=15.0)
             r = Recorder(pid)
             mod.check(r, small)
             if sig in r.failures:
